@@ -224,7 +224,7 @@ def isSuffix (s l : Bytes) : Bool := s.length ≤ l.length && l.drop (l.length -
 def panicMon (impl : String) : Option (String × String) :=
   if impl.startsWith "PANIC" then some ("codec-panic", impl) else none
 
-def step (_ : Unit) (op : List String) (impl : String) : LineOut Unit :=
+def stepStateless (_ : Unit) (op : List String) (impl : String) : LineOut Unit :=
   match op with
   | "enc" :: kind :: toks =>
     let implBody : Bytes := ((bytesOfHex? (firstTok impl)).getD []).drop 1
@@ -343,6 +343,84 @@ def step (_ : Unit) (op : List String) (impl : String) : LineOut Unit :=
     | _, _ => { state := (), model := some "bad-op" }
   | _ => { state := (), model := some "bad-op" }
 
-def checker : Checker := { σ := Unit, init := (), step := step }
+/-! ### a member's life as seen by a receiver (real memberlist event delegate of a real node)
+
+  mjoin <name> <senderProto> <tags>    NotifyJoin with Meta = the sender's real encodeTags(tags)
+  mupdate <name> <senderProto> <tags>  NotifyUpdate with the new Meta
+  mleave <name> <t|f graceful>         (leave intent first when graceful, then) NotifyLeave
+      => <status> <Members()[name].Tags, sorted>     | none (unknown member)
+
+Model: the receiver shows the decode of the LATEST meta it was given for that member and
+nothing else (C32_tags_v3 / C32_tags_v2_partial); a leave does not touch the tags.
+MONITOR (own bookkeeping of what each member last announced): the shown tags equal the
+tags the member last encoded (protocol ≥ 3: all of them; before: its role)   key tags-not-latest-meta -/
+
+structure MemberView where
+  name : Bytes
+  status : String
+  tags : Tags
+
+structure St where
+  /-- model: the receiver's member table -/
+  members : List MemberView := []
+  /-- monitor: what each member last announced (expected tags at any receiver) -/
+  announced : List (Bytes × Tags) := []
+  deriving Inhabited
+
+def setMember (ms : List MemberView) (m : MemberView) : List MemberView :=
+  if ms.any (·.name == m.name) then ms.map (fun x => if x.name == m.name then m else x) else ms ++ [m]
+
+def expectedAt (proto : Nat) (tags : Option Tags) : Tags :=
+  if proto < 3 then [(kRole, tagLookup (tags.getD []) kRole)] else tags.getD []
+
+def sortedTagTokens (t : Tags) : String := showTags t
+
+def lifeMonitor (announced : List (Bytes × Tags)) (name : Bytes) (impl : String) : Option (String × String) :=
+  match panicMon impl with
+  | some m => some m
+  | none =>
+    match announced.find? (·.1 == name) with
+    | none => if impl == "none" then none else some ("tags-not-latest-meta", s!"a member that never joined is shown as {impl}")
+    | some (_, exp) =>
+      let shown := restToks impl
+      if shown == showTags exp then none
+      else if (tagLookup exp kRole).head? == some 255 && exp.length == 1 then
+        some ("role-ff-proto2", s!"role {hexOfBytes (tagLookup exp kRole)} is shown as {shown}")
+      else some ("tags-not-latest-meta", s!"member {hexOfBytes name} last announced {showTags exp} but the receiver shows {shown}")
+
+def step (s : St) (op : List String) (impl : String) : LineOut St :=
+  match op with
+  | [kind, n, p, tg] =>
+    if kind == "mjoin" || kind == "mupdate" then
+      match bytesOfHex? n, p.toNat?, parseTags tg with
+      | some name, some proto, some tags =>
+        let known := s.members.find? (·.name == name)
+        if kind == "mupdate" && known.isNone then
+          { state := s, model := some "none", monitor := lifeMonitor s.announced name impl }
+        else
+          let shown := (decodeTags (encodeTags proto tags)).1
+          let status := if kind == "mjoin" then "alive" else (known.map (·.status)).getD "alive"
+          let ann := (s.announced.filter (fun q => !(q.1 == name))) ++ [(name, expectedAt proto tags)]
+          { state := { members := setMember s.members ⟨name, status, shown⟩, announced := ann },
+            model := some s!"{status} {showTags shown}", monitor := lifeMonitor ann name impl }
+      | _, _, _ => { state := s, model := some "bad-op" }
+    else
+      let r := stepStateless () op impl
+      { state := s, model := r.model, monitor := r.monitor }
+  | ["mleave", n, g] =>
+    match bytesOfHex? n with
+    | some name =>
+      match s.members.find? (·.name == name) with
+      | none => { state := s, model := some "none", monitor := lifeMonitor s.announced name impl }
+      | some m =>
+        let status := if m.status == "alive" then (if g == "t" then "left" else "failed") else m.status
+        { state := { s with members := setMember s.members { m with status := status } },
+          model := some s!"{status} {showTags m.tags}", monitor := lifeMonitor s.announced name impl }
+    | none => { state := s, model := some "bad-op" }
+  | _ =>
+    let r := stepStateless () op impl
+    { state := s, model := r.model, monitor := r.monitor }
+
+def checker : Checker := { σ := St, init := {}, step := step }
 
 end SerfModel.Check.C32
